@@ -45,3 +45,32 @@ Print Assumptions C09_commit_keeps_data.
 Theorem C09_escape_roundtrip : forall s, manifest_unescape (manifest_escape s) = s.
 Proof. exact unescape_escape. Qed.
 Print Assumptions C09_escape_roundtrip.
+
+(* ---- collections loaded from a manifest ---- *)
+From AV Require Import proofs.CFS_load_proofs.
+From Coq Require Import Ascii.
+
+(* Whatever manifest text the loader accepts, the filesystem it builds is a good state all of whose
+   segments are stored segments denoting slices of blocks of the table (the table's locators are
+   assumed to state the true block sizes - it is what Keep handed out). *)
+Theorem C09_loaded_state_good : forall mb, 1 <= mb -> forall tab,
+  (forall d l n rest h, In (d, l) tab -> splitn3 "+"%char l = h :: n :: rest ->
+     forall k, parse_dec n = Some k -> k = List.length d) ->
+  forall txt s, b_load mb tab txt = Ok s -> Good mb s /\ BInv mb (binit mb tab s).
+Proof. intros mb Hmb tab Htab txt s. exact (b_load_good mb Hmb (map fst tab) tab eq_refl Htab txt s). Qed.
+Print Assumptions C09_loaded_state_good.
+
+(* hence every history that starts from a loaded manifest behaves like the plain filesystem started
+   from the loaded tree, and keeps all stored segments accounted for *)
+Theorem C09_history_from_loaded : forall mb, 1 <= mb -> forall tab,
+  (forall d l n rest h, In (d, l) tab -> splitn3 "+"%char l = h :: n :: rest ->
+     forall k, parse_dec n = Some k -> k = List.length d) ->
+  forall txt s es, b_load mb tab txt = Ok s ->
+  bouts mb tab (binit mb tab s) es = run Spec (abs mb s) (fg_ops es) /\
+  BInv mb (bfinal mb tab (binit mb tab s) es).
+Proof.
+  intros mb Hmb tab Htab txt s es Hl.
+  destruct (b_load_good mb Hmb (map fst tab) tab eq_refl Htab txt s Hl) as [_ HB].
+  split; [exact (bg_history_refines mb Hmb tab es _ HB)|exact (bg_history_invariant mb Hmb tab es _ HB)].
+Qed.
+Print Assumptions C09_history_from_loaded.
